@@ -1,4 +1,5 @@
-(* The core IR of vm/src/core/mod.rs:55-170 and a fuelled big-step evaluator for it.
+(* The core IR of vm/src/core/mod.rs:55-170 and a big-step evaluator for it (structural on the
+   expression; the fuel of [eval_core] bounds the depth of nested function calls).
    Definitions only (executable, extracted by coq/extract/c04); proofs are in
    Lang/OptValidProofs.v.
 
